@@ -45,6 +45,11 @@ CLAIMS = {
         text="The pattern semantics of the statement is a recursive TLA+ operator over pattern ASTs (classes by instance, field existence, regex anchored at the start of str(value) modelled on character sequences, None, [], nested, sequences with / without tail, variables with content equality for nodes, captures as slot / atom / tuple-of-slots values, empty captures on failure) plus Multi = first matching rule; TLC checks that the exact pattern of every node matches it, that generated patterns are well formed and that Multi returns the first match, and exports for the newest node of every heap the exact pattern and its variations with expected verdict and captures. The driver renders each in three whitespace styles, compiles all before matching, and matches fresh / cached / recompiled / through MultiPatternMatcher comparing captures with `is`. Random patterns of depth <= 3 written against random nodes are recorded and validated by Trace_Pattern.tla.",
         note="Trusted: TLC, the pattern text renderer, pools (str() of plain pool values as character sequences in Zoo.tla). Not compared (statement silent): sequence specs on str values, regex specs on node values.",
         design="6 C08"),
+    "C17": dict(
+        technique="TLA+ token-level grammars (Syntax.tla recognizer + Gen_Syntax.tla stack-machine generator, TLC checks generator subset of recognizer) + exhaustive export of derived and single-token-mutated strings replayed into the compilers + TLC trace validation of random token strings",
+        text="Both text grammars are specified twice at token level: a generator (leftmost derivations by a stack machine) and an independent recognizer with the static side conditions (known node classes, unique capture names, variables after their captures, compilable regexes); TLC checks every derived string is recognized and exports every derived string up to MaxTok tokens plus every single-token mutation with the verdict. The driver renders each compact and spaced: ASTXpath returns or raises only ASTXpathDefinitionError, validate_pattern / from_pattern / MultiPatternMatcher agree and leak nothing; accepted xpaths are evaluated on a fixed tree against TreeQ.FindAll of the steps the spec parses from the tokens; accepted patterns match identically after recompilation and extra whitespace. Random token strings are recorded and validated by Trace_Syntax.tla; byte-level noise is checked for totality and agreement only.",
+        note="Trusted: TLC, the token renderer (blanks only where two alphanumeric tokens would merge). Leading whitespace of xpaths and the empty text are outside the statement.",
+        design="6 C17"),
     "C10": dict(
         technique="TLA+ action properties (Immutable, MembershipFrame, FailFrame) on Registry.tla + Observe actions replayed with per-step fingerprints of every live node",
         text="In the Registry machine no action changes the record of a surviving slot (Immutable) and registry membership changes only in detach / detach_self / replace on the receiver's subtree (MembershipFrame); Observe actions stand for every read-only operation kind (traversals, Tree queries, xpath, patterns, visitors, transformers, comparison, hashing, rich printing, accessors, (de)serialization, setattr / delattr on every field) and are UNCHANGED. TLC exports every transition; the driver fingerprints every live node before each call and compares after it, and compares the whole abstract state with the spec's. Recorded histories are checked the same way at every step.",
